@@ -991,9 +991,9 @@ func runC15(c *core.Ctx) {
 // passes a WriteString whose argument derives from comments[i].
 func formatCommentMustWrite(fc *ssa.Function) bool {
 	var header *ssa.BasicBlock
-	for _, b := range fc.Blocks {
-		if isRangeLoop(b) {
-			header = b
+	for _, l := range naturalLoops(fc) {
+		if isRangeLoop(l.header) && header == nil {
+			header = l.header
 		}
 	}
 	if header == nil {
